@@ -1,9 +1,18 @@
 #!/bin/sh
-# Offline setup after a fresh restore: build every Lean module (re-checks every theorem), the
-# driver executables, and warm the C++ object cache.  Everything is rebuilt again, incrementally,
-# by each check from /repo's current working tree.
-set -e
+# Offline setup after a fresh restore: regenerate the translator output, build every Lean module
+# (re-checks every theorem) and every driver executable, and warm the C++ object cache.
+# Every check rebuilds what it needs again (incrementally) from /repo's current working tree, so a
+# property whose modules do not build here is reported by its own check, not hidden: this script
+# keeps going and prints a summary.
 cd "$(dirname "$0")"
-python3 tools/gen_all.py
-( cd lean && lake build && lake build $(sed -n 's/^name = "\(drv_[A-Za-z0-9_]*\)"/\1/p' lakefile.toml) )
-python3 tools/warm.py || true
+python3 tools/gen_all.py || echo "setup: translator reported an error (the affected check will report it)"
+cd lean
+FAILED=""
+for p in $(sed -n 's/^name = "drv_\(C[0-9]*\)"/\1/p' lakefile.toml); do
+  lake build Babylon.Properties.$p drv_$p > ../build/setup-$p.log 2>&1 || FAILED="$FAILED $p"
+done
+lake build > ../build/setup-all.log 2>&1 || echo "setup: full library build reported errors (see build/setup-all.log)"
+cd ..
+python3 tools/warm.py > build/setup-warm.log 2>&1 || true
+if [ -n "$FAILED" ]; then echo "setup: Lean targets with errors:$FAILED"; else echo "setup: all Lean targets built"; fi
+exit 0
